@@ -241,6 +241,15 @@ pub fn run_case(case: &Case) -> Result<(bool, Vec<&'static str>), Failure> {
         let got = edges_of(&et, "after filter_edges")?;
         vensure!(got == kept, "filter-edges-edge-set", "after filter_edges edges {:?}, selected {:?}", got, kept);
         vensure!(node_paths(&et) == all_nodes, "filter-edges-node-set", "filter_edges changed the node set");
+        // with edges removed asymmetrically the graph is directed: every node must reach every other one
+        vensure!(
+            et.connected() == is_connected(&all_nodes, &kept),
+            "connected-wrong",
+            "after filter_edges: connected() = {} but own directed BFS over {:?} says {}",
+            et.connected(),
+            kept,
+            !et.connected()
+        );
         let gate_level = kept.iter().all(|(a, g, b, h)| kept.contains(&(b.clone(), h.clone(), a.clone(), g.clone())));
         let node_level = kept.iter().all(|(a, _, b, _)| kept.iter().any(|(x, _, y, _)| x == b && y == a));
         if gate_level == node_level {
